@@ -3,6 +3,7 @@ import PgBifrost.Proofs.LedgerRefine
 import PgBifrost.Proofs.LedgerSpecSound
 import PgBifrost.Proofs.SysExample
 import PgBifrost.Gen.Wiring
+import PgBifrost.Gen.Conds
 import PgBifrost.Proofs.SysClient
 /-!
 # C01 — no WAL position is acknowledged before its data is in the sink (property theorems)
@@ -302,6 +303,15 @@ theorem runner_wiring_as_modelled :
     runnerMakes.lookup "txnsSeen" = some "make(chan []*progress.Seen)" ∧
     -- tracker ▸ client: the acknowledgements the client sends are the tracker's output
     runnerGo.getLast? = some "r.replicationClient.Start(r.progressTracker.OutputChan)" := by decide
+
+/-- **the release condition is the one in the source**: `Gen.Conds.releasable` is TRANSLATED from
+`emitProgress` on every run (`walStart != 0 && count == total`, with the three locals read from the entry's
+`CommitWalStart`, `Count`, `TotalMsgs`); the ledger model releases an entry under exactly that condition.
+(`==` weakened to `>=`, or the `walStart != 0` guard dropped, breaks this theorem.) -/
+theorem release_condition_as_in_source (e : PgBifrost.Ledger.Entry) :
+    PgBifrost.Ledger.releasable e = PgBifrost.Gen.Conds.releasable e.commit e.count e.total := by
+  simp only [PgBifrost.Ledger.releasable, PgBifrost.Gen.Conds.releasable]
+  by_cases h1 : e.commit = 0 <;> by_cases h2 : e.count = e.total <;> simp [h1, h2]
 
 end wiring
 
